@@ -19,11 +19,8 @@ func finish(ctx *common.Ctx, p *Prog) *Prog {
 	// one program in three: the routines' bodies are functions that nobody has called yet (routines with equal
 	// code share one): the forms are compiled in place by whichever routines get there first
 	p.Cold = ctx.Rng.Chance(33)
-	for _, r := range p.Code {
-		if HasExit(r) {
-			p.Yield, p.Slow = 0, -1 // see HasExit
-			p.Cold = false          // the exit forms are kept in the shape the exits model was validated with
-		}
+	for i := range p.Code {
+		p.Code[i] = fixGoTags(ctx.Rng, p.Code[i], nil)
 	}
 	if p.Cells == nil {
 		p.Cells = []string{}
@@ -35,6 +32,31 @@ func finish(ctx *common.Ctx, p *Prog) *Prog {
 		p.Caps = []int{}
 	}
 	return p
+}
+
+// fixGoTags: (go b) checks only that SOME tagbody encloses it; a tag that none of the enclosing tagbodies has
+// would travel up to the top of the routine and end it without a report.  Such a go gets the tag of one of the
+// tagbodies around it (none around it: it stays what it is, a control-error).
+func fixGoTags(r *common.Rng, ops []Op, tags []int) []Op {
+	out := make([]Op, len(ops))
+	for k, o := range ops {
+		switch {
+		case o.Kind == "exit" && o.TB && len(tags) > 0:
+			found := false
+			for _, t := range tags {
+				found = found || t == o.B
+			}
+			if !found {
+				o.B = tags[r.Intn(len(tags))]
+			}
+		case o.Kind == "block" && o.TB:
+			o.Body = fixGoTags(r, o.Body, append(append([]int(nil), tags...), o.B))
+		case len(o.Body) > 0:
+			o.Body = fixGoTags(r, o.Body, tags)
+		}
+		out[k] = o
+	}
+	return out
 }
 
 func repeatOp(n int, f func(k int) Op) (ops []Op) {
@@ -278,7 +300,7 @@ func genExits(ctx *common.Ctx) *Prog {
 			inner = append([]Op{Store(0, lit(int64(10+r.Intn(80))))}, inner...)
 		}
 		if r.Chance(25) {
-			inner = append(inner, Store(0, lit(int64(100+r.Intn(50))))) // not the last form: slip carries on (C07)
+			inner = append(inner, Store(0, lit(int64(100+r.Intn(50))))) // not the last form: skipped, the exit leaves from any position
 		}
 		heldM1 := false
 		wrap := func(x []Op, allowM1 bool) []Op {
